@@ -142,8 +142,10 @@ func cfgToURL(cfg string) string {
 			case "tln":
 				parts = append(parts, "segtimelinenr_1")
 			}
+		case "stop":
+			parts = append(parts, "stop_"+v)
 		default:
-			parts = append(parts, k+"_"+v) // passed through (periods, scte35, statuscode, ...)
+			parts = append(parts, k+"_"+v) // passed through (periods, continuous, scte35, statuscode, ...)
 		}
 	}
 	if len(parts) == 0 {
